@@ -140,4 +140,26 @@ CHECKS = {
             {"name": "ownreply", "test": "TestOwnReply", "quick": 1200, "thorough": 10000, "shards": 16},
         ],
     },
+    "C07": {
+        "pkg": "c07",
+        "level": "exploration",
+        "level_text": ("Generated close scenarios: driver kind x connection state at Close (idle reader parked in a read, peer EOF seen, "
+                       "transport error pending or consumed, data / error / EOF arriving concurrently at generated skews around the grace "
+                       "period, operation in flight, second Close) x transport close behaviour (parked read returns EOF / error / stays "
+                       "blocked) x read delay (graceful vs forced path) x forced orderings of named yield points in the reader loop, "
+                       "Close and operations (build tag verif). Every case runs in a fresh child process inside a synctest bubble: a "
+                       "panic in any goroutine, a race report (-race build, GORACE exitcode), Close exceeding its virtual-time bound, a "
+                       "transport never closed, or goroutines left after teardown are failures."),
+        "level_note": ("Trusted: testing/synctest leak and deadlock detection, the Go race detector, sim.Pipe. Orders are forced only at the "
+                       "instrumented points; between two points the Go scheduler decides. For the 'stays blocked' transport the harness "
+                       "releases the parked read after Close returned and then requires the library to unwind completely."),
+        "technique": "property-based testing (rapid) of generated states x forced hook orderings, child-process isolation, virtual-time bounds, runtime leak detection, -race",
+        "rule": ("driver x state x close behaviour x read delay x skew x 0-3 ordering constraints (thorough: all ordered cross-role pairs enumerated). "
+                 "Non-trivial: any state other than idle, or a feasible ordering constraint, or a second Close. Distinct = sha1(case)."),
+        "assumptions": ["ReadDelay >= 10us (ReadDelay 0 spins and cannot run on the virtual clock)"],
+        "subs": [
+            {"name": "close", "test": "TestClose", "quick": 350, "thorough": 3000, "shards": 16},
+            {"name": "close-rt", "test": "TestCloseRT", "quick": 150, "thorough": 1500, "shards": 16, "race": True},
+        ],
+    },
 }
